@@ -1,13 +1,13 @@
 (* C12 - receiver side proofs about Frag/Buffer.v (model of fragment_buffer.go).
    1. structural invariant + resource bounds for ALL inputs (hostile streams)   [feeds C08]
-   2. exact characterisation of when Pop panics / returns a message
+   2. when Pop returns a message; Pop never panics (for all hostile histories)
    3. retransmission flag
    4. safety: honest fragments (any slices, any order/duplication/interleaving/packing)
       => everything popped is the honest message sequence prefix, exactly once, in order
    5. completeness: one fixed partition per message + capacity => message j is popped as soon as
       all fragments of messages 0..j have arrived; nothing popped while a byte is missing
-   6. refutations: mixed partitions / colliding zero-length fragment / >= max_count fragments
-      wedge reassembly (liveness only). *)
+   6. liveness boundaries: mixed partitions / >= max_count fragments wedge reassembly (outside the
+      premises of 5); empty fragments inside a message are inert; regression corpus. *)
 From DtlsV Require Import Lib.Bytes Gen.Generated Frag.Split Frag.SplitSound Frag.Buffer.
 From Coq Require Import ZifyN ZifyNat ZifyBool.
 Open Scope N_scope.
@@ -243,6 +243,7 @@ Proof. unfold WF. cbn. split; [constructor|]. split; [intros k e H; discriminate
 Lemma push_frag_cur ep st b f : cur (fst (push_frag ep (st, b) f)) = cur st.
 Proof.
   unfold push_frag. destruct (f_seq f <? cur st); [reflexivity|].
+  destruct (skip_empty f); [reflexivity|].
   destruct (efind _ _); reflexivity.
 Qed.
 
@@ -252,6 +253,7 @@ Lemma push_frag_WF ep st b f : WF st -> WF (fst (push_frag ep (st, b) f)).
 Proof.
   intros (Hnd & Hent & Hsz & Hcn). unfold push_frag.
   destruct (f_seq f <? cur st); [cbn [fst]; unfold WF; auto|].
+  destruct (skip_empty f); [cbn [fst]; unfold WF; auto|].
   set (k := f_seq f).
   destruct (clookup k (cache st)) as [e0|] eqn:Elk.
   - (* existing entry *)
@@ -290,6 +292,7 @@ Lemma push_frag_growth ep st b f :
   size st <= size st' /\ size st' <= size st + f_flen f /\ count st <= count st' /\ count st' <= count st + 1.
 Proof.
   cbv zeta. unfold push_frag. destruct (f_seq f <? cur st); [cbn; lia|].
+  destruct (skip_empty f); [cbn; lia|].
   destruct (efind _ _); cbn [fst size count]; lia.
 Qed.
 
@@ -508,15 +511,89 @@ Proof.
     rewrite walk_hlen0. cbn [len length N.of_nat N.eqb negb]. now rewrite H4.
 Qed.
 
-(* the handshake.Header.Unmarshal of the tree accepts any 12 bytes, so this state is one Push away:
-   a single fragment with Length = 0, fragment_length = 0 and fragment_offset = 1 *)
-Definition panic_record : record := RHs 0 [mkFrag 14 0 0 1 []] 0.
+(* ... and that situation is unreachable: pushHandshakeFragments skips every empty fragment that is not
+   the fragment of an empty message at offset 0, so a stored empty fragment is at offset 0. *)
+Definition NP (st : state) : Prop :=
+  forall k e, clookup k (cache st) = Some e ->
+    e_frags e <> [] /\ Forall (fun s => s_flen s = 0 -> s_off s = 0) (e_frags e).
 
-Theorem pop_panic_reachable :
-  snd (push init panic_record) = (true, false, false) /\
-  pop (fst (push init panic_record)) = PPanic /\
-  snd (arrive init panic_record) = true.
-Proof. vm_compute. repeat split; reflexivity. Qed.
+Lemma wsum_zero {A} (w : A -> N) l : wsum w l = 0 -> Forall (fun x => w x = 0) l.
+Proof.
+  unfold wsum. induction l as [|x l IH]; intro H; [constructor|]. cbn [fold_right] in H.
+  constructor; [lia|apply IH; lia].
+Qed.
+
+Lemma NP_init : NP init.
+Proof. intros k e H. discriminate. Qed.
+
+Lemma NP_no_panic st : WF st -> NP st -> pop st <> PPanic.
+Proof.
+  intros (_ & Hent & _) HNP Hp. apply pop_panic_iff in Hp. destruct Hp as (e & Hl & Hs & Hh & Hf).
+  destruct (HNP _ _ Hl) as [Hne Hz]. destruct (Hent _ _ Hl) as [Hsum _].
+  rewrite Hs in Hsum. symmetry in Hsum. apply wsum_zero in Hsum.
+  destruct (e_frags e) as [|s l]; [now apply Hne|].
+  inversion Hsum as [|? ? Hs0 _]; inversion Hz as [|? ? Hz0 _]; subst.
+  apply (efind_none 0 (s :: l) s Hf); [now left|]. now apply Hz0.
+Qed.
+
+Lemma skip_empty_false_off f : skip_empty f = false -> f_flen f = 0 -> f_off f = 0.
+Proof.
+  unfold skip_empty. intros H Hz. rewrite Hz in H. cbn [N.eqb andb] in H.
+  apply orb_false_elim in H. destruct H as [_ H]. apply negb_false_iff, N.eqb_eq in H. exact H.
+Qed.
+
+Lemma push_frag_NP ep st b f : NP st -> NP (fst (push_frag ep (st, b) f)).
+Proof.
+  intro HNP. unfold push_frag. destruct (f_seq f <? cur st); [exact HNP|].
+  destruct (skip_empty f) eqn:Hsk; [exact HNP|].
+  set (k := f_seq f).
+  assert (Hnew : s_flen (mkS f ep) = 0 -> s_off (mkS f ep) = 0)
+    by (unfold s_flen, s_off; cbn [s_frag]; now apply skip_empty_false_off).
+  destruct (clookup k (cache st)) as [e0|] eqn:Elk.
+  - destruct (HNP _ _ Elk) as [Hne Hz].
+    destruct (efind (f_off f) (e_frags e0)); cbn [fst]; intros k' e'; cbn [cache]; rewrite clookup_cset;
+      (destruct (k =? k'); [|apply HNP]); intro H; inversion H; subst; clear H.
+    + now split.
+    + cbn [e_frags]. split; [discriminate|]. constructor; assumption.
+  - cbn [e_frags efind find fst]. intros k' e'. cbn [cache]. rewrite clookup_cset.
+    destruct (k =? k'); [|apply HNP]. intro H; inversion H; subst; clear H.
+    cbn [e_frags]. split; [discriminate|]. constructor; [assumption|constructor].
+Qed.
+
+Lemma push_NP st r : NP st -> NP (fst (push st r)).
+Proof.
+  intro H. unfold push. destruct (_ || _); [exact H|].
+  destruct r as [x|x|ep fs tail]; try exact H.
+  pose proof (push_frags_fold NP ep (fun st b f => push_frag_NP ep st b f) fs st false H) as H'.
+  unfold push_frags. destruct (fold_left (push_frag ep) fs (st, false)) as [st' retr].
+  destruct (tail =? 0); exact H'.
+Qed.
+
+Lemma pop_NP st m st' : WF st -> NP st -> pop st = POk m st' -> NP st'.
+Proof.
+  intros Hwf HNP Hp. destruct (pop_WF _ _ _ Hwf Hp) as (_ & _ & _ & _ & Hc).
+  intros k e. rewrite Hc, clookup_cremove. destruct (cur st =? k); [discriminate|apply HNP].
+Qed.
+
+Lemma advance_to_NP st m : NP st -> NP (advance_to st m).
+Proof.
+  intro H. unfold advance_to. destruct (m <=? cur st); [exact H|].
+  intros k e. cbn [cache]. rewrite (clookup_filter (fun x => negb (x <? m))).
+  destruct (negb (k <? m)); [apply H|discriminate].
+Qed.
+
+(* Pop never panics: after ANY sequence of Push (any payload) / Pop / AdvanceTo calls *)
+Theorem pop_never_panics (ops : list api) : pop (fold_left api_step ops init) <> PPanic.
+Proof.
+  assert (Hgen : forall st, WF st /\ NP st -> WF (fold_left api_step ops st) /\ NP (fold_left api_step ops st)).
+  { induction ops as [|a ops IH]; intros st H; [exact H|]. cbn [fold_left]. apply IH.
+    destruct H as [Hwf Hnp]. destruct a as [r| |m]; cbn [api_step].
+    - split; [now apply push_WF|now apply push_NP].
+    - destruct (pop st) as [| |p st'] eqn:E; try (split; assumption).
+      split; [now destruct (pop_WF _ _ _ Hwf E)|now apply (pop_NP st p st')].
+    - split; [now destruct (advance_to_WF st m Hwf)|now apply advance_to_NP]. }
+  destruct (Hgen init (conj WF_init NP_init)) as [H1 H2]. now apply NP_no_panic.
+Qed.
 
 Lemma filter_len_le {A} (g : A -> bool) l : (length (filter g l) <= length l)%nat.
 Proof. induction l as [|x l IH]; cbn [filter length]; [lia|]. destruct (g x); cbn [length]; lia. Qed.
@@ -551,11 +628,14 @@ Proof. unfold drain. apply pop_all_done. lia. Qed.
 Lemma push_frag_snd ep st b f : snd (push_frag ep (st, b) f) = b || (f_seq f <? cur st).
 Proof.
   unfold push_frag. destruct (f_seq f <? cur st); [now rewrite orb_true_r|].
-  rewrite orb_false_r. destruct (efind _ _); reflexivity.
+  rewrite orb_false_r. destruct (skip_empty f); [reflexivity|]. destruct (efind _ _); reflexivity.
 Qed.
 
 Lemma push_frag_fst_flag ep st b b' f : fst (push_frag ep (st, b) f) = fst (push_frag ep (st, b') f).
-Proof. unfold push_frag. destruct (f_seq f <? cur st); [reflexivity|]. destruct (efind _ _); reflexivity. Qed.
+Proof.
+  unfold push_frag. destruct (f_seq f <? cur st); [reflexivity|].
+  destruct (skip_empty f); [reflexivity|]. destruct (efind _ _); reflexivity.
+Qed.
 
 Lemma push_frags_fst_flag ep fs : forall st b b',
   fst (fold_left (push_frag ep) fs (st, b)) = fst (fold_left (push_frag ep) fs (st, b')).
@@ -669,6 +749,7 @@ Section Safety.
   Lemma push_frag_SInv ep st b f : honest_frag n M f -> SInv st -> SInv (fst (push_frag ep (st, b) f)).
   Proof.
     intros [Hk Hsl] [Hc Hent]. unfold push_frag. destruct (f_seq f <? cur st); [split; assumption|].
+    destruct (skip_empty f); [split; assumption|].
     set (k := f_seq f) in *.
     destruct (clookup k (cache st)) as [e0|] eqn:Elk.
     - destruct (Hent _ _ Elk) as (H1 & H2 & H3 & H4).
@@ -817,15 +898,24 @@ Proof.
     rewrite drop_app_add. exact H3.
 Qed.
 
+(* what the receiver effectively sees of a partition: no fragment it would skip, and no two
+   fragments at one offset *)
+Definition strict_part (m : hmsg) (P : list frag) : Prop :=
+  P <> [] /\ Forall (hdr_of m) P /\ contiguous 0 P /\ cat_data P = m_body m /\
+  NoDup (map f_off P) /\ Forall (fun f => skip_empty f = false) P.
+
 Lemma good_part_slice m Pl f : good_part m Pl -> In f Pl -> is_slice m f.
 Proof.
-  intros (Hne & Hh & Hc & Hcat & Hnd) Hin. rewrite Forall_forall in Hh.
+  intros (Hne & Hh & Hc & Hcat) Hin. rewrite Forall_forall in Hh.
   destruct (contiguous_slice Pl 0 Hc f Hin) as (_ & H2 & H3). rewrite Hcat in *.
   split; [now apply Hh|]. split; [lia|]. now rewrite N.sub_0_r in H3.
 Qed.
 
 Lemma good_part_sum m Pl : good_part m Pl -> sum_flen Pl = len (m_body m).
-Proof. intros (_ & _ & _ & Hcat & _). now rewrite sum_flen_cat, Hcat. Qed.
+Proof. intros (_ & _ & _ & Hcat). now rewrite sum_flen_cat, Hcat. Qed.
+
+Lemma strict_good m Pl : strict_part m Pl -> good_part m Pl.
+Proof. intros (H1 & H2 & H3 & H4 & _). repeat split; assumption. Qed.
 
 Lemma good_part_first m Pl : good_part m Pl -> exists f0, In f0 Pl /\ f_off f0 = 0.
 Proof.
@@ -880,10 +970,12 @@ Section Complete.
   Variable M : N -> hmsg.
   Variable P : N -> list frag.
   Hypothesis Hn : n < 65536.
-  Hypothesis HM : forall j, j < n -> m_seq (M j) = j /\ good_part (M j) (P j).
+  Hypothesis HM : forall j, j < n -> m_seq (M j) = j /\ strict_part (M j) (P j).
 
-  (* a fragment of THE partition of the message it names *)
-  Definition part_frag (f : frag) : Prop := f_seq f < n /\ In f (P (f_seq f)).
+  (* a fragment of THE partition of the message it names, or a genuine but empty slice of it that
+     the receiver skips *)
+  Definition part_frag (f : frag) : Prop :=
+    f_seq f < n /\ (In f (P (f_seq f)) \/ (skip_empty f = true /\ is_slice (M (f_seq f)) f)).
   (* a well-formed handshake record of such fragments *)
   Definition part_rec (r : record) : Prop :=
     match r with RHs _ fs tail => tail = 0 /\ Forall part_frag fs | _ => False end.
@@ -898,11 +990,19 @@ Section Complete.
   Proof. intros j Hj. now destruct (HM j Hj). Qed.
 
   Lemma part_frag_honest f : part_frag f -> honest_frag n M f.
-  Proof. intros [Hk Hin]. split; [exact Hk|]. destruct (HM _ Hk) as [_ Hg]. now apply (good_part_slice _ (P (f_seq f))). Qed.
+  Proof.
+    intros [Hk [Hin|[_ Hsl]]]; (split; [exact Hk|]); [|exact Hsl].
+    destruct (HM _ Hk) as [_ Hg]. apply (good_part_slice _ (P (f_seq f))); [now apply strict_good|exact Hin].
+  Qed.
+
+  Lemma part_noskip k f : k < n -> In f (P k) -> skip_empty f = false.
+  Proof.
+    intros Hk Hin. destruct (HM k Hk) as [_ (_ & _ & _ & _ & _ & Hns)]. rewrite Forall_forall in Hns. now apply Hns.
+  Qed.
 
   Lemma part_frag_seq k f : k < n -> In f (P k) -> f_seq f = k.
   Proof.
-    intros Hk Hin. destruct (HM k Hk) as [Hs Hg]. apply (good_part_slice _ _ f Hg) in Hin.
+    intros Hk Hin. destruct (HM k Hk) as [Hs Hg]. apply (good_part_slice _ _ f (strict_good _ _ Hg)) in Hin.
     destruct Hin as ((_ & _ & Hq) & _). now rewrite Hq.
   Qed.
 
@@ -918,7 +1018,7 @@ Section Complete.
     WF st /\ SInv n M st /\
     (forall k e, clookup k (cache st) = Some e ->
        cur st <= k /\ incl (stored_of e) (P k) /\ (forall f, In f (stored_of e) -> Arr f)) /\
-    (forall f, Arr f -> cur st <= f_seq f ->
+    (forall f, Arr f -> In f (P (f_seq f)) -> cur st <= f_seq f ->
        exists e, clookup (f_seq f) (cache st) = Some e /\ In f (stored_of e)) /\
     (forall j f, j < cur st -> In f (P j) -> 0 < f_flen f -> Arr f).
 
@@ -987,8 +1087,17 @@ Section Complete.
       split; [|split].
       - intros k e Hl. destruct (H3 k e Hl) as (Ha & Hb & Hc). split; [exact Ha|split; [exact Hb|]].
         intros x Hx. right. now apply Hc.
-      - intros x [->|Hx] Hc; [lia|now apply H4].
+      - intros x [->|Hx] Hxp Hc; [lia|now apply H4].
       - intros j x Hj Hx Hp. right. now apply (H5 j). }
+    destruct (skip_empty f) eqn:Hsk; cbn [fst].
+    { (* skipped empty fragment: nothing changes, and it is not a fragment of the partition *)
+      split; [|split].
+      - intros k e Hl. destruct (H3 k e Hl) as (Ha & Hb & Hc). split; [exact Ha|split; [exact Hb|]].
+        intros x Hx. right. now apply Hc.
+      - intros x [->|Hx] Hxp Hc; [|now apply H4].
+        rewrite (part_noskip _ _ Hk Hxp) in Hsk. discriminate.
+      - intros j x Hj Hx Hp. right. now apply (H5 j). }
+    destruct Hin as [Hin|[Hsk' _]]; [|discriminate].
     set (k := f_seq f) in *.
     assert (Hck : cur st <= k) by lia.
     destruct (clookup k (cache st)) as [e0|] eqn:Elk.
@@ -1002,12 +1111,12 @@ Section Complete.
       + (* the offset is already taken - by f itself, since one partition has one fragment per offset *)
         apply efind_some in Ef. destruct Ef as [Hsin Hsoff].
         assert (Hsf : s_frag s = f).
-        { destruct (HM k Hk) as [_ (_ & _ & _ & _ & Hndp)].
+        { destruct (HM k Hk) as [_ (_ & _ & _ & _ & Hndp & _)].
           apply (nodup_map_inj f_off (P k)); auto. apply Hincl0. unfold stored_of. now apply in_map. }
-        intros x [->|Hx] Hc.
+        intros x [->|Hx] Hxp Hc.
         * exists e0. rewrite clookup_cset, N.eqb_refl. split; [reflexivity|].
           unfold stored_of. rewrite <- Hsf. now apply in_map.
-        * destruct (H4 x Hx Hc) as (e & Hl & Hi). rewrite clookup_cset.
+        * destruct (H4 x Hx Hxp Hc) as (e & Hl & Hi). rewrite clookup_cset.
           destruct (k =? f_seq x) eqn:E; [|now exists e].
           apply N.eqb_eq in E. rewrite <- E in Hl. rewrite Elk in Hl. inversion Hl; subst e. now exists e0.
       + intros j x Hj Hx Hp. right. now apply (H5 j).
@@ -1019,10 +1128,10 @@ Section Complete.
           -- intros x [<-|Hx]; [now left|right; now apply Harr0].
         * intro Hl. destruct (H3 _ _ Hl) as (Ha & Hb & Hc). split; [exact Ha|split; [exact Hb|]].
           intros x Hx. right. now apply Hc.
-      + intros x [->|Hx] Hc.
+      + intros x [->|Hx] Hxp Hc.
         * eexists. rewrite clookup_cset, N.eqb_refl. split; [reflexivity|].
           unfold stored_of. cbn [e_frags map s_frag]. now left.
-        * destruct (H4 x Hx Hc) as (e & Hl & Hi). rewrite clookup_cset.
+        * destruct (H4 x Hx Hxp Hc) as (e & Hl & Hi). rewrite clookup_cset.
           destruct (k =? f_seq x) eqn:E; [|now exists e].
           apply N.eqb_eq in E. rewrite <- E in Hl. rewrite Elk in Hl. inversion Hl; subst e.
           eexists. split; [reflexivity|]. unfold stored_of. cbn [e_frags map s_frag]. right. exact Hi.
@@ -1036,10 +1145,10 @@ Section Complete.
           -- intros x [<-|[]]. now left.
         * intro Hl. destruct (H3 _ _ Hl) as (Ha & Hb & Hc). split; [exact Ha|split; [exact Hb|]].
           intros x Hx. right. now apply Hc.
-      + intros x [->|Hx] Hc.
+      + intros x [->|Hx] Hxp Hc.
         * eexists. rewrite clookup_cset, N.eqb_refl. split; [reflexivity|].
           unfold stored_of. cbn [e_frags map s_frag]. now left.
-        * destruct (H4 x Hx Hc) as (e & Hl & Hi). rewrite clookup_cset.
+        * destruct (H4 x Hx Hxp Hc) as (e & Hl & Hi). rewrite clookup_cset.
           destruct (k =? f_seq x) eqn:E; [|now exists e].
           apply N.eqb_eq in E. rewrite <- E in Hl. rewrite Elk in Hl. discriminate.
       + intros j x Hj Hx Hp. right. now apply (H5 j).
@@ -1063,7 +1172,8 @@ Section Complete.
     intros ((Hnd & Hent & _) & (_ & HS) & H3 & _) Hl Hall.
     destruct (HS _ _ Hl) as (Hk & Hhl & _). destruct (H3 _ _ Hl) as (_ & Hincl & _).
     pose proof (Hent _ _ Hl) as Hwf. pose proof Hwf as [_ Hndo].
-    destruct (HM _ Hk) as [_ Hg]. pose proof Hg as (Hne & _ & Hc & Hcat & Hndp).
+    destruct (HM _ Hk) as [_ Hgs]. pose proof Hgs as (Hne & _ & Hc & Hcat & Hndp & _).
+    pose proof (strict_good _ _ Hgs) as Hg.
     assert (HndP : NoDup (P (cur st))) by (now apply (NoDup_map_inv f_off)).
     assert (Hsum : e_sum e = e_hlen e).
     { rewrite Hhl, <- (good_part_sum _ _ Hg), (stored_sum _ Hwf). rewrite !sum_flen_wsum.
@@ -1092,15 +1202,15 @@ Section Complete.
     split; [exact Hwf'|split; [exact HS'|split; [|split]]].
     - intros k e. rewrite Hcache, clookup_cremove. destruct (cur st =? k) eqn:E; [discriminate|].
       intro Hl. destruct (H3 _ _ Hl) as (Ha & Hb & Hc). split; [lia|split; assumption].
-    - intros f Hf Hc. rewrite Hcache, clookup_cremove.
-      destruct (cur st =? f_seq f) eqn:E; [lia|]. apply H4; [exact Hf|lia].
+    - intros f Hf Hfp Hc. rewrite Hcache, clookup_cremove.
+      destruct (cur st =? f_seq f) eqn:E; [lia|]. apply H4; [exact Hf|exact Hfp|lia].
     - intros j f Hj Hin Hp. rewrite Hcur in Hj.
       destruct (N.eq_dec j (cur st)) as [->|Hne]; [|apply (H5 j); auto; lia].
       (* the message just popped: its stored fragments sum to its length, so they include f *)
       apply pop_ok_inv in Hpop. destruct Hpop as (e & raw & s0 & Hl & Hsum & _).
       destruct Hwf as (_ & Hent & _). destruct HS as (_ & HSe).
       destruct (H3 _ _ Hl) as (_ & Hincl & Harr). destruct (HSe _ _ Hl) as (_ & Hhl & _).
-      destruct (HM _ Hk) as [_ Hg]. apply Harr.
+      destruct (HM _ Hk) as [_ Hgs]. pose proof (strict_good _ _ Hgs) as Hg. apply Harr.
       apply (sum_full (stored_of e) (P (cur st))); auto.
       + now apply stored_nodup, (Hent _ _ Hl).
       + rewrite <- (stored_sum _ (Hent _ _ Hl)), Hsum, Hhl. symmetry. now apply (good_part_sum _ _ Hg).
@@ -1176,11 +1286,12 @@ Section Complete.
     destruct HL as [HL HQ]. split; [exact Hpn|split; [exact Hc|split; [exact Hm|split]]].
     - intros j Hj Hall. destruct (N.lt_ge_cases j (cur st)) as [H|Hge]; [exact H|exfalso].
       set (k := cur st) in *. assert (Hk : k < n) by lia.
-      destruct (HM k Hk) as [_ Hg]. destruct (good_part_first _ _ Hg) as (f0 & Hf0 & _).
+      destruct (HM k Hk) as [_ Hgs]. destruct (good_part_first _ _ (strict_good _ _ Hgs)) as (f0 & Hf0 & _).
       pose proof HL as (_ & _ & H3 & H4 & _).
       assert (Hst : forall f, In f (P k) -> exists e, clookup k (cache st) = Some e /\ In f (stored_of e)).
       { intros f Hf. rewrite <- (part_frag_seq k f Hk Hf).
-        apply H4; [left; apply (Hall k f Hge Hf)|rewrite (part_frag_seq k f Hk Hf); subst k; lia]. }
+        apply H4; [left; apply (Hall k f Hge Hf)|rewrite (part_frag_seq k f Hk Hf); exact Hf|
+                   rewrite (part_frag_seq k f Hk Hf); subst k; lia]. }
       destruct (Hst f0 Hf0) as (e & Hl & _).
       destruct (complete_pops _ st e HL Hl) as (p & st' & Hp).
       + intros f Hf. destruct (Hst f Hf) as (e' & Hl' & Hi). fold k in Hl. rewrite Hl in Hl'. now inversion Hl'.
@@ -1233,6 +1344,7 @@ Qed.
 Lemma overshot_push_frag ep st b f : Overshot st -> Overshot (fst (push_frag ep (st, b) f)).
 Proof.
   intros (e & Hl & Hlt). unfold Overshot, push_frag. destruct (f_seq f <? cur st); [now exists e|].
+  destruct (skip_empty f); [now exists e|].
   destruct (N.eq_dec (f_seq f) (cur st)) as [Heq|Hne].
   - rewrite Heq, Hl. destruct (efind _ _); cbn [fst cache cur]; eexists; rewrite clookup_cset, N.eqb_refl;
       (split; [reflexivity|cbn [e_hlen e_sum]; lia]).
@@ -1276,79 +1388,39 @@ Proof.
     rewrite Happ, Hpre. cbn [app]. now destruct (overshoot_wedges_forever _ rs Hst).
 Qed.
 
-(* (b) a zero-length fragment stored at the offset where the first fragment ends occupies that
-   offset for ever (first writer wins) and the chain walk spins on it: nothing is ever popped again. *)
-Definition ZeroBlocked (st : state) : Prop :=
-  exists e s0 s1, clookup (cur st) (cache st) = Some e /\
-    efind 0 (e_frags e) = Some s0 /\ 0 < s_flen s0 /\ s_flen s0 < e_hlen e /\
-    efind (s_flen s0) (e_frags e) = Some s1 /\ s_flen s1 = 0.
-
-Lemma walk_zero_stays hlen frs s1 t : efind t frs = Some s1 -> s_flen s1 = 0 -> t < hlen ->
-  forall fuel acc, walk fuel t hlen frs acc = Some acc.
+(* (b) [was a wedge before the fix "ignore empty handshake fragments that cannot belong to a message"]
+   An empty fragment that is not the offset-0 fragment of an empty message is inert: the buffer is
+   unchanged, only the retransmission flag is computed as for any other fragment. *)
+Theorem empty_fragment_inert ep st b f : skip_empty f = true ->
+  push_frag ep (st, b) f = (st, b || (f_seq f <? cur st)).
 Proof.
-  intros Hf Hz Ht. induction fuel as [|k IH]; intro acc; cbn [walk]; [reflexivity|].
-  replace (t <? hlen) with true by (symmetry; apply N.ltb_lt; exact Ht). rewrite Hf.
-  pose proof (efind_some _ _ _ Hf) as [_ Hoff]. rewrite Hoff, Hz, N.add_0_r.
-  unfold s_flen, f_flen in Hz. apply len_0_nil in Hz. rewrite Hz, app_nil_r. apply IH.
+  unfold push_frag. intro H. destruct (f_seq f <? cur st); [now rewrite orb_true_r|].
+  rewrite H. now rewrite orb_false_r.
 Qed.
 
-Lemma zeroblocked_pop st : ZeroBlocked st -> pop st = PNone.
+Corollary zero_fragment_in_message_inert ep st b f :
+  f_flen f = 0 -> f_len f <> 0 -> fst (push_frag ep (st, b) f) = st.
 Proof.
-  intros (e & s0 & s1 & Hl & H0 & Hp & Hlt & H1 & Hz). unfold pop. rewrite Hl.
-  destruct (negb (e_sum e =? e_hlen e)); [reflexivity|].
-  assert (Hw : exists raw, walk (length (e_frags e)) 0 (e_hlen e) (e_frags e) [] = Some raw /\ len raw < e_hlen e).
-  { destruct (length (e_frags e)) as [|k]; cbn [walk].
-    - exists []. split; [reflexivity|]. cbn. lia.
-    - replace (0 <? e_hlen e) with true by (symmetry; apply N.ltb_lt; lia). rewrite H0.
-      pose proof (efind_some _ _ _ H0) as [_ Hoff]. rewrite Hoff, N.add_0_l. cbn [app].
-      rewrite (walk_zero_stays _ _ s1 _ H1 Hz Hlt). eexists. split; [reflexivity|]. exact Hlt. }
-  destruct Hw as (raw & -> & Hlen). destruct (e_hlen e =? len raw) eqn:E; [lia|reflexivity].
+  intros Hz Hl. rewrite empty_fragment_inert; [reflexivity|].
+  unfold skip_empty. rewrite Hz. apply N.eqb_neq in Hl. rewrite Hl. reflexivity.
 Qed.
 
-Lemma efind_cons_other x l off s : efind off l = Some s -> s_off x <> off -> efind off (x :: l) = Some s.
-Proof. unfold efind. cbn [find]. intros H Hne. apply N.eqb_neq in Hne. now rewrite Hne. Qed.
-
-Lemma zeroblocked_push_frag ep st b f : ZeroBlocked st -> ZeroBlocked (fst (push_frag ep (st, b) f)).
-Proof.
-  intros (e & s0 & s1 & Hl & H0 & Hp & Hlt & H1 & Hz). unfold ZeroBlocked, push_frag.
-  destruct (f_seq f <? cur st); [now exists e, s0, s1|].
-  destruct (N.eq_dec (f_seq f) (cur st)) as [Heq|Hne].
-  - rewrite Heq, Hl. destruct (efind (f_off f) (e_frags e)) eqn:Ef; cbn [fst cache cur].
-    + exists e, s0, s1. rewrite clookup_cset, N.eqb_refl. auto 10.
-    + eexists. exists s0, s1. rewrite clookup_cset, N.eqb_refl. split; [reflexivity|]. cbn [e_frags e_hlen].
-      assert (Hn0 : s_off (mkS f ep) <> 0).
-      { unfold s_off. cbn [s_frag]. intro Hc. rewrite Hc in Ef. rewrite H0 in Ef. discriminate. }
-      assert (Hn1 : s_off (mkS f ep) <> s_flen s0).
-      { unfold s_off. cbn [s_frag]. intro Hc. rewrite Hc in Ef. rewrite H1 in Ef. discriminate. }
-      split; [now apply efind_cons_other|]. split; [exact Hp|]. split; [exact Hlt|].
-      split; [now apply efind_cons_other|exact Hz].
-  - destruct (match clookup (f_seq f) (cache st) with Some e1 => e1 | None => _ end) as [fr sm hl].
-    cbn [e_frags e_sum e_hlen]. destruct (efind (f_off f) fr); cbn [fst cache cur]; exists e, s0, s1;
-      rewrite clookup_cset; (destruct (f_seq f =? cur st) eqn:E; [apply N.eqb_eq in E; contradiction|]); auto 10.
-Qed.
-
-Theorem zero_fragment_wedges_forever st rs : ZeroBlocked st ->
-  snd (fst (run st rs)) = [] /\ ZeroBlocked (fst (fst (run st rs))).
-Proof.
-  intro H. destruct (run_wedged ZeroBlocked zeroblocked_pop
-    (push_W_from_frag ZeroBlocked zeroblocked_push_frag) rs st H) as (H1 & _ & H3). now split.
-Qed.
-
-(* the partition (0,2) (2,0) (2,2) of a 4-byte message - contiguous, covering, but with a zero-length
-   fragment in the middle - delivered in the order (0,2) (2,0) reaches that state *)
+(* regression corpus: the two inputs that failed before the fix *)
 Definition zf_partition : list frag := [mkFrag 1 4 0 0 [1; 2]; mkFrag 1 4 0 2 []; mkFrag 1 4 0 2 [3; 4]].
-Definition zf_history : list record := [RHs 0 [mkFrag 1 4 0 0 [1; 2]] 0; RHs 0 [mkFrag 1 4 0 2 []] 0].
+Definition zf_history : list record := map (fun f => RHs 0 [f] 0) zf_partition.
+Definition old_panic_record : record := RHs 0 [mkFrag 14 0 0 1 []] 0.
 
-Theorem zero_fragment_wedges_refuted :
-  contiguous 0 zf_partition /\ cat_data zf_partition = m_body rp_msg /\ Forall (hdr_of rp_msg) zf_partition /\
-  Forall (fun r => incl (rec_frags r) zf_partition) zf_history /\
-  ZeroBlocked (fst (fst (run init zf_history))).
+Theorem zero_fragment_regression :
+  good_part rp_msg zf_partition /\
+  map strip (snd (fst (run init zf_history))) = [hstrip rp_msg] /\ snd (run init zf_history) = false.
 Proof.
-  split; [vm_compute; auto|]. split; [reflexivity|]. split; [repeat constructor|]. split.
-  - unfold zf_history. constructor; [|constructor; [|constructor]]; intros x [<-|[]]; cbn; tauto.
-  - vm_compute. do 3 eexists. split; [reflexivity|]. vm_compute.
-    split; [reflexivity|]. split; [reflexivity|]. split; [reflexivity|]. split; reflexivity.
+  split; [|split; vm_compute; reflexivity].
+  split; [discriminate|]. split; [repeat constructor|]. split; [vm_compute; auto|reflexivity].
 Qed.
+
+Theorem old_panic_input_regression :
+  arrive init old_panic_record = (init, (true, false, false), [], false).
+Proof. vm_compute. reflexivity. Qed.
 
 (* (c) CAPACITY.  Once totalFragmentCount has reached fragmentBufferMaxCount every Push fails with
    ErrFragmentBufferOverflow and changes nothing; only Pop / AdvanceTo free space.  So a message cut
@@ -1424,23 +1496,187 @@ Proof.
   rewrite N2Nat.id. reflexivity.
 Qed.
 
-Theorem reassembly_complete_list (msgs : list hmsg) (P : N -> list frag) (rs : list record) :
+(* ---- general partitions (zero-length fragments anywhere, repeated empty fragments): the receiver
+   effectively sees [eff]: the non-empty fragments, or the first fragment of an empty message ---- *)
+Definition eff (m : hmsg) (Pl : list frag) : list frag :=
+  if len (m_body m) =? 0 then firstn 1 Pl else filter (fun f => 0 <? f_flen f) Pl.
+
+Lemma contiguous_filter_pos : forall Pl off, contiguous off Pl ->
+  contiguous off (filter (fun f => 0 <? f_flen f) Pl) /\
+  cat_data (filter (fun f => 0 <? f_flen f) Pl) = cat_data Pl.
+Proof.
+  induction Pl as [|g Pl IH]; intros off Hc; [split; [exact I|reflexivity]|].
+  cbn [contiguous] in Hc. destruct Hc as [Hoff Hc]. cbn [filter].
+  destruct (0 <? f_flen g) eqn:E.
+  - destruct (IH _ Hc) as [H1 H2]. split; [cbn [contiguous]; now split|].
+    unfold cat_data in *. cbn [map concat]. now rewrite H2.
+  - assert (Hz : f_flen g = 0) by lia. rewrite Hz, N.add_0_r in Hc. destruct (IH _ Hc) as [H1 H2].
+    split; [exact H1|]. unfold cat_data in *. cbn [map concat]. rewrite H2.
+    unfold f_flen in Hz. apply len_0_nil in Hz. now rewrite Hz.
+Qed.
+
+Lemma contig_pos_nodup : forall S off, contiguous off S -> Forall (fun f => 0 < f_flen f) S ->
+  (forall f, In f S -> off <= f_off f) /\ NoDup (map f_off S).
+Proof.
+  induction S as [|g S IH]; intros off Hc Hp; [split; [intros f []|constructor]|].
+  cbn [contiguous] in Hc. destruct Hc as [Hoff Hc]. inversion Hp as [|? ? Hg Hp']; subst.
+  destruct (IH _ Hc Hp') as [H1 H2]. split.
+  - intros f [<-|Hf]; [lia|]. specialize (H1 f Hf). lia.
+  - cbn [map]. constructor; [|exact H2]. intro Hin. apply in_map_iff in Hin.
+    destruct Hin as (f & Hf & Hin). specialize (H1 f Hin). lia.
+Qed.
+
+Lemma contiguous_all_empty : forall Pl off, contiguous off Pl -> cat_data Pl = [] ->
+  Forall (fun f => f_off f = off /\ f_data f = []) Pl.
+Proof.
+  induction Pl as [|g Pl IH]; intros off Hc Hcat; [constructor|].
+  cbn [contiguous] in Hc. destruct Hc as [Hoff Hc]. unfold cat_data in Hcat. cbn [map concat] in Hcat.
+  apply app_eq_nil in Hcat. destruct Hcat as [Hg Hrest]. constructor; [now split|].
+  unfold f_flen in Hc. rewrite Hg in Hc. cbn [len length N.of_nat] in Hc. rewrite N.add_0_r in Hc.
+  now apply IH.
+Qed.
+
+Lemma eff_incl m Pl : incl (eff m Pl) Pl.
+Proof.
+  unfold eff. destruct (len (m_body m) =? 0); intros f Hf.
+  - destruct Pl as [|g Pl]; [contradiction|]. cbn [firstn] in Hf. destruct Hf as [<-|[]]. now left.
+  - apply filter_In in Hf. now destruct Hf.
+Qed.
+
+Lemma eff_pos m Pl f : good_part m Pl -> In f Pl -> 0 < f_flen f -> In f (eff m Pl).
+Proof.
+  intros (_ & _ & Hc & Hcat) Hin Hp. unfold eff. destruct (len (m_body m) =? 0) eqn:E.
+  - exfalso. apply N.eqb_eq, len_0_nil in E. rewrite E in Hcat.
+    pose proof (contiguous_all_empty _ _ Hc Hcat) as Hall. rewrite Forall_forall in Hall.
+    destruct (Hall f Hin) as [_ Hd]. unfold f_flen in Hp. rewrite Hd in Hp. cbn in Hp. lia.
+  - apply filter_In. split; [exact Hin|]. now apply N.ltb_lt.
+Qed.
+
+Lemma eff_cover m Pl f : good_part m Pl -> In f Pl -> In f (eff m Pl) \/ skip_empty f = true.
+Proof.
+  intros Hg Hin. pose proof Hg as (Hne & Hh & Hc & Hcat).
+  destruct (N.eq_dec (f_flen f) 0) as [Hz|Hnz]; [|left; apply (eff_pos m Pl f Hg Hin); lia].
+  rewrite Forall_forall in Hh. destruct (Hh f Hin) as (Hty & Hln & Hsq).
+  destruct (len (m_body m) =? 0) eqn:E.
+  - left. unfold eff. rewrite E. apply N.eqb_eq, len_0_nil in E. rewrite E in Hcat.
+    pose proof (contiguous_all_empty _ _ Hc Hcat) as Hall. rewrite Forall_forall in Hall.
+    destruct Pl as [|g Pl]; [contradiction|]. cbn [firstn]. left.
+    destruct (Hall f Hin) as [Hof Hdf]. destruct (Hall g (or_introl eq_refl)) as [Hog Hdg].
+    destruct (Hh g (or_introl eq_refl)) as (Htg & Hlg & Hsg).
+    destruct f, g; cbn in *; congruence.
+  - right. unfold skip_empty. rewrite Hz, Hln, E. reflexivity.
+Qed.
+
+Lemma eff_strict m Pl : good_part m Pl -> strict_part m (eff m Pl).
+Proof.
+  intros (Hne & Hh & Hc & Hcat). unfold eff. destruct (len (m_body m) =? 0) eqn:E.
+  - pose proof E as E'. apply N.eqb_eq, len_0_nil in E'. rewrite E' in Hcat.
+    pose proof (contiguous_all_empty _ _ Hc Hcat) as Hall.
+    destruct Pl as [|g Pl]; [contradiction|]. cbn [firstn].
+    inversion Hall as [|? ? [Hog Hdg] _]; subst. inversion Hh as [|? ? Hhg _]; subst.
+    split; [discriminate|]. split; [now constructor|]. split; [cbn; now split|].
+    split; [unfold cat_data; cbn [map concat]; now rewrite Hdg, E'|].
+    split; [cbn; constructor; [intros []|constructor]|]. constructor; [|constructor].
+    destruct Hhg as (_ & Hl & _). unfold skip_empty, f_flen. rewrite Hdg, Hog, Hl, E'. reflexivity.
+  - destruct (contiguous_filter_pos _ _ Hc) as [Hc' Hcat'].
+    set (F := filter (fun f => 0 <? f_flen f) Pl) in *.
+    assert (Hpos : Forall (fun f => 0 < f_flen f) F).
+    { apply Forall_forall. intros f Hf. apply filter_In in Hf. destruct Hf as [_ Hf]. now apply N.ltb_lt. }
+    split.
+    { intro HF. rewrite <- Hcat, <- Hcat', HF in E. cbn in E. discriminate. }
+    split; [apply Forall_forall; intros f Hf; apply filter_In in Hf; rewrite Forall_forall in Hh; now apply Hh|].
+    split; [exact Hc'|]. split; [now rewrite Hcat'|].
+    split; [now destruct (contig_pos_nodup _ _ Hc' Hpos)|].
+    eapply Forall_impl; [|exact Hpos]. cbn. intros f Hf. unfold skip_empty.
+    replace (f_flen f =? 0) with false by (symmetry; apply N.eqb_neq; lia). reflexivity.
+Qed.
+
+Section CompleteGen.
+  Variable n : N.
+  Variable M : N -> hmsg.
+  Variable Q : N -> list frag.
+  Hypothesis Hn : n < 65536.
+  Hypothesis HQ : forall j, j < n -> m_seq (M j) = j /\ good_part (M j) (Q j).
+
+  Definition gen_frag (f : frag) : Prop := f_seq f < n /\ In f (Q (f_seq f)).
+  Definition gen_rec (r : record) : Prop :=
+    match r with RHs _ fs tail => tail = 0 /\ Forall gen_frag fs | _ => False end.
+
+  (* COMPLETENESS for arbitrary sender partitions (contiguous cover, zero-length fragments anywhere):
+     same statement as reassembly_complete, no side condition on empty fragments. *)
+  Theorem reassembly_complete_gen rs : cap_frags n Q < max_count ->
+    Forall (fun r => gen_rec r /\ cap_bytes n Q + record_size r < max_size) rs ->
+    let '(st, pops, pn) := run init rs in
+    pn = false /\ cur st <= n /\ map strip pops = map (fun j => hstrip (M j)) (idx (cur st)) /\
+    (forall j, j < n -> (forall i f, i <= j -> In f (Q i) -> In f (arrived rs)) -> j < cur st) /\
+    (forall j f, j < cur st -> In f (Q j) -> 0 < f_flen f -> In f (arrived rs)).
+  Proof.
+    intros Hcf Hrs. set (E := fun j => eff (M j) (Q j)).
+    assert (HM : forall j, j < n -> m_seq (M j) = j /\ strict_part (M j) (E j)).
+    { intros j Hj. destruct (HQ j Hj) as [H1 H2]. split; [exact H1|now apply eff_strict]. }
+    assert (Hcf' : cap_frags n E <= cap_frags n Q).
+    { unfold cap_frags. apply wsum_le. intros j _. unfold E, eff. destruct (len (m_body (M j)) =? 0).
+      - rewrite firstn_length. lia.
+      - pose proof (filter_len_le (fun f => 0 <? f_flen f) (Q j)). lia. }
+    assert (Hcb' : cap_bytes n E <= cap_bytes n Q).
+    { unfold cap_bytes. apply wsum_le. intros j Hj. apply In_idx in Hj. destruct (HQ j Hj) as [_ Hg].
+      unfold E. rewrite (good_part_sum _ _ Hg), (good_part_sum _ _ (strict_good _ _ (eff_strict _ _ Hg))). lia. }
+    assert (Hrs' : Forall (fun r => part_rec n M E r /\ cap_bytes n E + record_size r < max_size) rs).
+    { eapply Forall_impl; [|exact Hrs]. cbn. intros r [Hr Hb]. split; [|lia].
+      destruct r as [x|x|ep fs tail]; cbn in *; try contradiction. destruct Hr as [Ht Hfs]. split; [exact Ht|].
+      eapply Forall_impl; [|exact Hfs]. cbn. intros f [Hk Hin]. split; [exact Hk|].
+      destruct (HQ _ Hk) as [_ Hg]. destruct (eff_cover _ _ f Hg Hin) as [H|H]; [now left|right].
+      split; [exact H|now apply (good_part_slice _ _ f Hg)]. }
+    pose proof (reassembly_complete n M E Hn HM rs (N.le_lt_trans _ _ _ Hcf' Hcf) Hrs') as H.
+    destruct (run init rs) as [[st pops] pn]. destruct H as (H1 & H2 & H3 & H4 & H5).
+    split; [exact H1|split; [exact H2|split; [exact H3|split]]].
+    - intros j Hj Hall. apply (H4 j Hj). intros i f Hi Hf. apply (Hall i f Hi). now apply (eff_incl (M i) (Q i)).
+    - intros j f Hj Hf Hp. apply (H5 j f Hj); [|exact Hp]. destruct (HQ j ltac:(lia)) as [_ Hg].
+      now apply eff_pos.
+  Qed.
+End CompleteGen.
+
+Theorem reassembly_complete_list (msgs : list hmsg) (Q : N -> list frag) (rs : list record) :
   let n := N.of_nat (length msgs) in
-  n < 65536 -> numbered msgs -> (forall j, j < n -> good_part (msg_fn msgs j) (P j)) ->
-  cap_frags n P < max_count ->
-  Forall (fun r => part_rec n P r /\ cap_bytes n P + record_size r < max_size) rs ->
+  n < 65536 -> numbered msgs -> (forall j, j < n -> good_part (msg_fn msgs j) (Q j)) ->
+  cap_frags n Q < max_count ->
+  Forall (fun r => gen_rec n Q r /\ cap_bytes n Q + record_size r < max_size) rs ->
   let '(st, pops, pn) := run init rs in
   pn = false /\
   map strip pops = firstn (N.to_nat (cur st)) (map hstrip msgs) /\
-  (forall j, j < n -> (forall i f, i <= j -> In f (P i) -> In f (arrived rs)) -> j < cur st) /\
-  (forall j f, j < cur st -> In f (P j) -> 0 < f_flen f -> In f (arrived rs)).
+  (forall j, j < n -> (forall i f, i <= j -> In f (Q i) -> In f (arrived rs)) -> j < cur st) /\
+  (forall j f, j < cur st -> In f (Q j) -> 0 < f_flen f -> In f (arrived rs)).
 Proof.
   cbv zeta. intros Hn Hnum Hgp Hcf Hrs.
-  assert (HM : forall j, j < N.of_nat (length msgs) -> m_seq (msg_fn msgs j) = j /\ good_part (msg_fn msgs j) (P j))
+  assert (HM : forall j, j < N.of_nat (length msgs) -> m_seq (msg_fn msgs j) = j /\ good_part (msg_fn msgs j) (Q j))
     by (intros j Hj; split; [now apply Hnum|now apply Hgp]).
-  pose proof (reassembly_complete _ _ P Hn HM rs Hcf Hrs) as H.
+  pose proof (reassembly_complete_gen _ _ Q Hn HM rs Hcf Hrs) as H.
   destruct (run init rs) as [[st pops] pn]. destruct H as (H1 & H2 & H3 & H4 & H5).
   split; [exact H1|split; [|split; [exact H4|exact H5]]]. rewrite H3.
   rewrite <- (idx_nth_firstn hstrip msgs (mkMsg 0 0 []) (N.to_nat (cur st))) by lia.
   rewrite N2Nat.id. reflexivity.
+Qed.
+
+(* the harness driver never sees a panic either: for ANY list of records *)
+Lemma pop_all_NP fuel : forall st, WF st -> NP st ->
+  let '(st', _, pn) := pop_all fuel st in pn = false /\ WF st' /\ NP st'.
+Proof.
+  induction fuel as [|k IH]; intros st Hwf Hnp; cbn [pop_all]; [auto|].
+  destruct (pop st) as [| |p st1] eqn:E; [auto|exfalso; now apply (NP_no_panic st)|].
+  specialize (IH st1 ltac:(now destruct (pop_WF _ _ _ Hwf E)) (pop_NP _ _ _ Hwf Hnp E)).
+  destruct (pop_all k st1) as [[st2 ms] pn]. exact IH.
+Qed.
+
+Theorem run_never_panics rs : snd (run init rs) = false.
+Proof.
+  assert (Hgen : forall st, WF st -> NP st -> snd (run st rs) = false).
+  { induction rs as [|r rs IH]; intros st Hwf Hnp; [reflexivity|]. cbn [run]. unfold arrive.
+    pose proof (push_WF st r Hwf) as H1. pose proof (push_NP st r Hnp) as H2.
+    destruct (push st r) as [st1 [[ish retr] err]]. cbn [fst] in H1, H2.
+    destruct (err || negb ish).
+    - specialize (IH st1 H1 H2). destruct (run st1 rs) as [[s2 m2] p2]. cbn [snd orb] in *. exact IH.
+    - unfold drain. pose proof (pop_all_NP (S (length (cache st1))) st1 H1 H2) as H3.
+      destruct (pop_all _ st1) as [[st2 ms] pn]. destruct H3 as (-> & H4 & H5).
+      specialize (IH st2 H4 H5). destruct (run st2 rs) as [[s3 m3] p3]. cbn [snd orb] in *. exact IH. }
+  apply Hgen; [apply WF_init|apply NP_init].
 Qed.
